@@ -36,7 +36,8 @@ SURVEY_ALIAS = {
 CHOICES_ALIAS = {"label": ["caption"], "name": ["value"], "list_name": ["list name"], "image": ["media::image", "media::Image"], "audio": ["media::audio", "Media::AUDIO"], "video": ["media::video", "media::Video"]}
 SETTINGS_ALIAS = {"form_id": ["id_string", "set_form_id"], "form_title": ["title", "set_form_title"]}
 KNOWN_SURVEY = set(SURVEY_ALIAS) | {"hint", "guidance_hint", "default", "trigger", "choice_filter", "parameters", "required", "constraint", "intent", "disabled"}
-TYPE_ALIAS = {"select_one": ["select one", "select1"], "select_multiple": ["select all that apply"], "integer": ["int"], "image": ["photo"],
+TYPE_ALIAS = {"select_one": ["select one", "select1"], "select_multiple": ["select all that apply"], "integer": ["int"], "image": ["photo", "add image prompt", "add photo prompt"],
+              "audio": ["add audio prompt"], "video": ["add video prompt"], "file": ["add file prompt"], "deviceid": ["imei"],
               "begin group": ["begin_group"], "end group": ["end_group"], "begin repeat": ["begin_repeat", "begin looped group", "begin lgroup", "begin_lgroup"], "end repeat": ["end_repeat", "end looped group", "end lgroup", "end_looped group"],
               "select_one_from_file": ["select one from file"], "select_multiple_from_file": ["select multiple from file"]}
 TRUE = ["yes", "Yes", "YES", "true", "True", "TRUE", "true()"]
